@@ -48,7 +48,10 @@ def worker_finish(tier, rec, st):
 def run_case(seed, tier, rec, st):
     rng = random.Random(seed)
     rec.evaluation()
-    if rng.random() < 0.55:
+    x = rng.random()
+    if x < 0.08:
+        passthrough_union_case(rng, tier, rec, st)
+    elif x < 0.55:
         schema_case(rng, tier, rec, st)
     else:
         identity_case(rng, tier, rec, st)
@@ -291,6 +294,65 @@ def identity_case(rng, tier, rec, st):
         rec.nontrivial(("identity", kind, wrap, mixin))
         if rng.random() < 0.02:
             rec.sample({"monitor": "identity", "kind": kind, "wrap": wrap, "mixin": mixin})
+    finally:
+        fam.dispose()
+        other.dispose()
+
+
+# ------------------------------------------------------------------ (d) classes compared by identity in generated code
+def passthrough_union_case(rng, tier, rec, st):
+    """a Union member that is passed through is recognised in the generated code by `value.__class__ is <name>`: the
+    name must be bound to the very class - also when the class's short name equals a module the namespace already
+    holds (datetime.datetime), and when two members share their name (same-named classes of two modules)."""
+    import datetime
+    import decimal
+    import uuid
+    from mashumaro.codecs.basic import BasicEncoder
+    fam = Family("c17p", future_annotations=False)
+    other = Family("c17q")
+    kind = rng.choice(["stdlib_short_name_is_module", "two_modules"])
+    facts = {"monitor": "identity", "kind": "passthrough_union:" + kind}
+    try:
+        mixin = rng.choice(["DataClassDictMixin", "DataClassORJSONMixin", "DataClassMessagePackMixin"])
+        order = rng.random() < 0.5
+        if kind == "stdlib_short_name_is_module":
+            pt, conv, ptv, convv, convw = rng.choice([
+                ("datetime.datetime", "decimal.Decimal", datetime.datetime(2024, 5, 6, 7, 8, 9), decimal.Decimal("1.5"), "1.5"),
+                ("datetime.datetime", "uuid.UUID", datetime.datetime(2024, 5, 6, 7, 8, 9), uuid.UUID(int=5), str(uuid.UUID(int=5))),
+                ("uuid.UUID", "datetime.date", uuid.UUID(int=7), datetime.date(2020, 1, 2), "2020-01-02"),
+                ("datetime.date", "decimal.Decimal", datetime.date(2020, 1, 2), decimal.Decimal("2"), "2"),
+            ])
+            members = [pt, conv] if order else [conv, pt]
+            strat = f"{{{pt}: pass_through}}"
+            fam.exec_src(f"@dataclass\nclass H({mixin}):\n    a: Union[{', '.join(members)}]\n    b: List[Union[{', '.join(members)}]] = field(default_factory=list)\n"
+                         f"    class Config(BaseConfig):\n        serialization_strategy = {strat}\n")
+            cases = [(ptv, "identity", None), (convv, "value", convw)]
+        else:
+            other.exec_src("class Item:\n    def __init__(self, v):\n        self.v = v\n")
+            fam.module.other = other.module
+            fam.exec_src("class Item:\n    def __init__(self, v):\n        self.v = v\n")
+            members = ["Item", "other.Item"] if order else ["other.Item", "Item"]
+            fam.exec_src(f"@dataclass\nclass H({mixin}):\n    a: Union[{', '.join(members)}]\n    b: List[Union[{', '.join(members)}]] = field(default_factory=list)\n"
+                         "    class Config(BaseConfig):\n        serialization_strategy = {Item: pass_through, other.Item: pass_through}\n")
+            cases = [(fam.module.Item(1), "identity", None), (other.module.Item(2), "identity", None)]
+        H = fam.module.H
+        enc = BasicEncoder(H)
+        src = "".join(fam.sources[1:]) + "".join(other.sources[1:])
+        for v, how, wire in cases:
+            for rname, fn in (("mixin", lambda o: o.to_dict()), ("codec", enc.encode)):
+                rec.count("identity_checks")
+                det = {"kind": kind, "route": rname, "source": src, "value": common.short(v)}
+                try:
+                    out = fn(H(v, [v]))
+                except Exception as ex:
+                    rec.violation(f"identity:passthrough_union:{kind}:exception:{type(ex).__name__}", dict(det, error=f"{type(ex).__name__}: {ex}"[:300]), dict(facts, exc=type(ex).__name__))
+                    continue
+                got = [out.get("a"), (out.get("b") or [None])[0]]
+                ok = all(g is v for g in got) if how == "identity" else all(type(g) is type(wire) and g == wire for g in got)
+                if not ok:
+                    rec.violation(f"identity:passthrough_union:{kind}:member-not-recognised", dict(det, observed=common.short(out), expected="the very object" if how == "identity" else wire), facts)
+        walk_new_functions(rec, st, {"kind": "passthrough_union"})
+        rec.nontrivial(("passthrough_union", kind, mixin, order))
     finally:
         fam.dispose()
         other.dispose()
